@@ -267,6 +267,7 @@ def _run(case, cfg, w):
 
     if is_async:
         import asyncio
+        down_evt = asyncio.Event()
 
         async def consume():
             ecount = 0
@@ -288,10 +289,15 @@ def _run(case, cfg, w):
                     elif st[0] == 'sleep_to':
                         await asyncio.sleep(max(0.0, t0 + st[1] - w.now()))
                     elif st[0] == 'until_down':
-                        end = w.now() + st[1]
-                        while sc.connected_event.is_set() and sc.connected \
-                                and w.now() < end:
-                            await asyncio.sleep(0.0005)
+                        # (no polling: a periodic timer would keep the
+                        # simulated system from ever being quiescent)
+                        if sc.connected_event.is_set() and sc.connected:
+                            down_evt.clear()
+                            try:
+                                await asyncio.wait_for(down_evt.wait(),
+                                                       st[1])
+                            except asyncio.TimeoutError:
+                                pass
                     else:
                         await asyncio.sleep(st[1])
                 except Exception as e:   # noqa
@@ -346,6 +352,8 @@ def _run(case, cfg, w):
     def _set():
         if not sc.connected:
             rec.add('final_disconnect')
+            if is_async:
+                down_evt.set()
         rec.add('ce_set')
         return _orig_set()
     sc.connected_event.set = _set
@@ -353,6 +361,8 @@ def _run(case, cfg, w):
 
     def _clear():
         rec.add('ce_clear')
+        if is_async:
+            down_evt.set()
         return _orig_clear()
     sc.connected_event.clear = _clear
     # the instant the client starts processing the final end of the
